@@ -3,6 +3,7 @@
 -/
 import PG.Spec.Descriptor
 import PG.Lemmas.ListBasics
+import PG.Generated.JavaBase
 namespace PG
 open JType
 
@@ -236,5 +237,22 @@ example :
     deobfuscateSignature (fun c => if c = [97, 46, 98] then some [79] else none)
       (descriptor [JType.prim 73, JType.arr (JType.obj [97, 47, 98])] (JType.prim 86))
     = some ([[105, 110, 116], [79, 91, 93]], [118, 111, 105, 100]) := by decide
+
+/-- Tie to the source as it is now (`PG/Generated/JavaBase.lean` is re-extracted from
+    `java_base_types` on every run): the function is exactly a table of primitive codes, and the
+    model's `javaBaseType` is that table — for every byte. (The Rust function takes a `char`;
+    non-ASCII characters are never in the table, and the model is applied to UTF-8 bytes, whose
+    non-ASCII bytes are ≥ 0x80.) -/
+theorem C16_base_table_fin :
+    Generated.baseTypesShapeOk = true ∧
+    (∀ p ∈ Generated.baseTypes, p.1 < 128) ∧
+    ∀ n, n < 256 → javaBaseType (UInt8.ofNat n) =
+      (Generated.baseTypes.lookup n).map (fun k => k.map UInt8.ofNat) := by
+  decide +kernel
+
+theorem C16_base_table (b : UInt8) :
+    javaBaseType b = (Generated.baseTypes.lookup b.toNat).map (fun k => k.map UInt8.ofNat) := by
+  have h := C16_base_table_fin.2.2 b.toNat b.toNat_lt
+  rwa [UInt8.ofNat_toNat] at h
 
 end PG
